@@ -84,12 +84,22 @@ class HistGen:
     """Generates steps; each step = dict(op, expect='ok'|'err', new_sym,
     new_cls, scale, cls, dim, kind)."""
 
-    def __init__(self, rng, with_invalid=True, max_exp=3, simple_derived=0.0):
+    def __init__(self, rng, with_invalid=True, max_exp=3, simple_derived=0.0,
+                 refless_derived=0.0, split_items=0.0, alias=0.12):
         self.rng = rng
         self.w = World()
         self.with_invalid = with_invalid
         self.max_exp = max_exp
         self.simple_derived = simple_derived
+        # probability that a derived class may be defined over base classes
+        # WITHOUT reference unit (then no reference unit can be derived: the
+        # class has one only if a symbol is given, and that unit is a base unit)
+        self.refless_derived = refless_derived
+        # probability that a term definition names TWO different units of one
+        # base type (u1^e1 * u2^(e-e1)) instead of u^e
+        self.split_items = split_items
+        # probability that a scaled unit duplicates the scale of an existing unit
+        self.alias = alias
 
     # -- valid declarations ---------------------------------------------
     def base_class(self, refless=False, quantum=None):
@@ -111,6 +121,9 @@ class HistGen:
         bases = [n for n, c in w.classes.items() if c["ref"] is not None]
         if not bases:
             return None
+        if rng.random() < self.refless_derived:
+            # base classes proper (not derived ones), with or without reference unit
+            bases = [n for n, c in w.classes.items() if "items" not in c]
         for _ in range(10):
             if rng.random() < self.simple_derived:
                 # product / quotient of two existing types, or a square
@@ -130,6 +143,19 @@ class HistGen:
             return None
         name = w.fresh("D")
         given = rng.random() < .4
+        if any(w.classes[c]["ref"] is None for c, _ in items):
+            # no reference unit derivable from the definition
+            given = rng.random() < .6
+            sym = w.fresh("d") if given else None
+            op = ["decl_class", name, fmt_cdef(items), sym if given else "-",
+                  "1" if given and rng.random() < .5 else "0", "-"]
+            w.classes[name] = dict(dim=dim, ref=sym, quantum=None,
+                                   units=[sym] if given else [], items=items)
+            w.order.append(name)
+            if given:
+                w.units[sym] = dict(cls=name, scale=Fraction(1), dim=dim)
+            return dict(op=op, expect="ok", kind="derived-class-refless-base", new_cls=name,
+                        new_sym=sym)
         if given:
             sym = w.fresh("d")
         else:
@@ -153,6 +179,10 @@ class HistGen:
             return None
         s, u = rng.choice(cands)
         k = rng.choice(FACTORS)
+        if rng.random() < self.alias:
+            # an ALIAS: a second unit with the scale of an existing one
+            t = rng.choice([x for x in cands if x[1]["cls"] == u["cls"]])
+            k = t[1]["scale"] / u["scale"]
         quantum = w.classes[u["cls"]]["quantum"]
         if quantum is not None:
             # the defining quantity itself gets quantised: stay on the grid
@@ -213,6 +243,18 @@ class HistGen:
             if not items:
                 continue
             num = rng.choice(FACTORS + [None, None])
+            if rng.random() < self.split_items:
+                # name two different units of one base type: u^e -> u^e1 * u2^e2
+                split = []
+                for u, e in items:
+                    others = [y for y in w.classes[w.units[u]["cls"]]["units"]
+                              if y != u and w.units[y]["scale"] is not None]
+                    e2 = rng.choice([-2, -1, 1, 2, 3])
+                    if others and e - e2 != 0 and rng.random() < .7:
+                        split += [(u, e - e2), (rng.choice(others), e2)]
+                    else:
+                        split.append((u, e))
+                items = split
             scale = num if num is not None else Fraction(1)
             for u, e in items:
                 scale *= w.units[u]["scale"] ** e
@@ -238,7 +280,7 @@ class HistGen:
                     kind="refless-unit", new_sym=sym)
 
     # -- invalid declarations (must be rejected, must leave no trace) ------
-    def invalid(self):
+    def invalid(self, only=None):
         w, rng = self.w, self.rng
         kinds = ["dup-symbol", "empty-symbol", "nonstr-symbol", "wrong-class-qty",
                  "wrong-dim-term", "undefined-term", "derive-wrong-count",
@@ -246,6 +288,8 @@ class HistGen:
                  "name-without-symbol", "quantum-without-symbol", "other-def",
                  "dup-ref-symbol", "dimensionless-term"]
         rng.shuffle(kinds)
+        if only is not None:
+            kinds = [k for k in kinds if k in only]
         syms = list(w.units)
         refcls = [n for n, c in w.classes.items() if c["ref"] is not None]
         dercls = [n for n, c in w.classes.items() if "items" in c]
@@ -308,7 +352,9 @@ class HistGen:
                 a = rng.choice(dercls)
                 items = list(w.classes[a]["items"])
                 rng.shuffle(items)
-                return self._bad(["decl_class", w.fresh("X"), fmt_cdef(items), w.fresh("x"), "0", "-"], kind)
+                return self._bad(["decl_class", w.fresh("X"), fmt_cdef(items),
+                                  w.fresh("x") if rng.random() < .8 else "-",
+                                  "0", "-"], kind)
             if kind == "name-without-symbol":
                 return self._bad(["decl_class", w.fresh("X"), "-", "-", "1", "-"], kind)
             if kind == "quantum-without-symbol":
@@ -324,11 +370,40 @@ class HistGen:
         return dict(op=op, expect="err", kind="invalid:" + kind)
 
     # -- driver -------------------------------------------------------------
-    def history(self, length):
+    def history(self, length, refless_script=False):
         rng = self.rng
         steps = []
         steps.append(self.base_class())
         steps.append(self.base_class())
+        if refless_script:
+            # targeted: derived types over base types WITHOUT reference unit,
+            # then rejected re-declarations of their dimension, then the
+            # rejected symbols used by valid declarations
+            steps.append(self.base_class(refless=True))
+            if rng.random() < .5:
+                steps.append(self.base_class(refless=True))
+            saved = self.refless_derived
+            self.refless_derived = 1.0
+            for _ in range(rng.randint(2, 4)):
+                st = self.derived_class()
+                if st is not None:
+                    steps.append(st)
+            self.refless_derived = saved
+            for _ in range(rng.randint(2, 4)):
+                st = self.invalid(only=("dup-dimension",))
+                if st is None:
+                    continue
+                steps.append(st)
+                sym = st["op"][3]
+                if sym != "-" and rng.random() < .6:
+                    # the rejected reference symbol must still be free
+                    name = self.w.fresh("B")
+                    self.w.classes[name] = dict(dim={name: 1}, ref=sym, quantum=None, units=[sym])
+                    self.w.order.append(name)
+                    self.w.units[sym] = dict(cls=name, scale=Fraction(1), dim={name: 1})
+                    steps.append(dict(op=["decl_class", name, "-", sym, "0", "-"], expect="ok",
+                                      kind="base-class-reusing-rejected-symbol", new_cls=name,
+                                      new_sym=sym))
         if rng.random() < .5:
             steps.append(self.base_class(quantum=rng.choice([Fraction(1, 8), Fraction(1, 100), Fraction(1, 3), Fraction(5, 8)])))
         while len(steps) < length:
